@@ -23,7 +23,7 @@ VARIABLE l
 R == Rec[l]
 X == [via |-> R.v.via, wrapper |-> R.v.wrapper, scheme |-> R.v.scheme, scase |-> R.v.scase, host |-> R.v.host,
       port |-> R.v.port, cert |-> R.v.cert, calpn |-> R.v.calpn, salpn |-> R.v.salpn, fault |-> R.v.fault,
-      prev |-> R.v.prev, hist |-> R.v.hist]
+      prev |-> R.v.prev, hist |-> R.v.hist, wiring |-> R.v.wiring]
 
 Range(s) == {s[i] : i \in DOMAIN s}
 \* a concrete server name in the vocabulary of the model, relative to the host the harness put into the URI
